@@ -105,8 +105,13 @@ def parse_args(
                     "or EXECUTE:..." % (v,))
 
         def set_actions(actions):
-            actions = tuple(actions)
-            parser.values.actions = actions
+            # Keep the symlink policy action that --symlinks (or its implicit
+            # default) already put at the front of the tuple; an action
+            # option only replaces the actions behind it.
+            symlink_actions = tuple(
+                a for a in parser.values.actions
+                if a in symlink_callbacks.values())
+            parser.values.actions = symlink_actions + tuple(actions)
 
         def action_callback(option, opt_str, value, parser):
             action_args = value.split(',')
